@@ -267,7 +267,7 @@ func frameHistory(r *engine.Run, quickDepth int) {
 	if r.Thorough() {
 		d = 3
 	}
-	r.Rule += historyRule + fmt.Sprintf(" (frames: sequences of <= %d calls)", d) + " Frame alphabet: encode, text-encode, decode, text-decode, decode into the sequence's reused receiver keeping a by-value copy, decode-then-edit-in-place, decode of a relayed copy, re-use of a decoded header for 17 frames of every kind (proprietary frames also in the lengths of a join-request and of both rejoin-requests) (two carry a proprietary MAC command registered for the part), and both encodings of 7 frames the encoder refuses (two of them after some of their commands have encoded); all sequences up to the stated depth."
+	r.Rule += historyRule + fmt.Sprintf(" (frames: sequences of <= %d calls)", d) + " Frame alphabet (sixteenth round: plus the MACPayload decoder called directly on one kept object, re-encoding to its input): encode, text-encode, decode, text-decode, decode into the sequence's reused receiver keeping a by-value copy, decode-then-edit-in-place, decode of a relayed copy, re-use of a decoded header for 17 frames of every kind (proprietary frames also in the lengths of a join-request and of both rejoin-requests) (two carry a proprietary MAC command registered for the part), and both encodings of 7 frames the encoder refuses (two of them after some of their commands have encoded); all sequences up to the stated depth."
 	// a proprietary MAC command registered for the duration of the part (two frames of the alphabet carry it)
 	if err := lorawan.RegisterProprietaryMACCommand(true, lorawan.CID(0x90), 2); err != nil {
 		r.HarnessError("history/frames: registering the proprietary command failed: %v", err)
